@@ -838,42 +838,51 @@ fn selection_checks(ctx: &mut Ctx, ps: &mut Passes, fam_prefix: &str, query: &st
     // A trailing blank of a quoted keyword can be satisfied by the line terminator itself; the
     // property does not say whether the terminator belongs to the line: accept either reading
     // for such a line (counted), demand the common answer everywhere else.
-    let mut gi = 0usize;
+    // The output must be explained by SOME reading of the terminator-dependent lines: the set of
+    // output positions reachable after each input line (a greedy match is wrong when such a line
+    // shows the same text as a later line that must be printed).
     let mut ambiguous = 0usize;
     let mut expected_strict: Vec<String> = vec![];
     let mut mismatch: Option<String> = None;
-    let mut selected = 0i64;
     let mut sel_lo = 0i64; // selected lines if every ambiguous line is left out
     let mut sel_hi = 0i64;
+    let mut reach: std::collections::BTreeSet<usize> = std::collections::BTreeSet::new();
+    reach.insert(0);
     for l in inp.lines.iter() {
         let with = sem(tree, l);
         let without = sem(tree, strip_terminator(l));
         let shown = l.trim_end().to_string();
+        let step = |set: &std::collections::BTreeSet<usize>| -> std::collections::BTreeSet<usize> {
+            set.iter().filter(|g| got.get(**g) == Some(&shown.as_str())).map(|g| g + 1).collect()
+        };
         if with == without {
             if with {
                 expected_strict.push(shown.clone());
                 sel_lo += 1;
                 sel_hi += 1;
                 if mismatch.is_none() {
-                    if got.get(gi) == Some(&shown.as_str()) {
-                        gi += 1;
-                        selected += 1;
+                    let next = step(&reach);
+                    if next.is_empty() {
+                        let gi = *reach.iter().next_back().unwrap_or(&0);
+                        mismatch = Some(format!("line {:?} should have been printed (output position {} under every reading of the terminator-dependent lines before it), got {:?}", shown, gi, got.get(gi)));
                     } else {
-                        mismatch = Some(format!("line {:?} should have been printed (output position {}), got {:?}", shown, gi, got.get(gi)));
+                        reach = next;
                     }
                 }
             }
         } else {
             ambiguous += 1;
             sel_hi += 1;
-            if mismatch.is_none() && got.get(gi) == Some(&shown.as_str()) {
-                gi += 1;
-                selected += 1;
+            if mismatch.is_none() {
+                let next = step(&reach);
+                reach.extend(next);
             }
         }
     }
-    if mismatch.is_none() && gi != got.len() {
-        mismatch = Some(format!("unexpected extra output line {:?} at position {}", got[gi], gi));
+    let selected = got.len() as i64;
+    if mismatch.is_none() && !reach.contains(&got.len()) {
+        let gi = *reach.iter().next_back().unwrap_or(&0);
+        mismatch = Some(format!("unexpected extra output line {:?} at position {}", got.get(gi), gi));
     }
     if ambiguous > 0 {
         ctx.count("filter:line-terminator-dependent-case");
